@@ -76,6 +76,20 @@ def _is_deg(x):
     return isinstance(x, Fraction)
 
 
+def _tolerance_name(e):
+    """'self.epsilon' / 'tolerance' / 'EPSILON' ... when e is a bare tolerance symbol (possibly scaled by a literal), else None"""
+    if isinstance(e, ast.BinOp) and isinstance(e.op, ast.Mult):
+        for a_, b_ in ((e.left, e.right), (e.right, e.left)):
+            if isinstance(a_, ast.Constant):
+                return _tolerance_name(b_)
+        return None
+    t = ast.unparse(e)
+    low = t.lower()
+    if isinstance(e, (ast.Name, ast.Attribute)) and any(w in low for w in ("eps", "tol", "bias")) and "sq" not in low:
+        return t
+    return None
+
+
 class Degrees:
     def __init__(self, idx, face_arrays=None):
         self.idx = idx
@@ -85,6 +99,7 @@ class Degrees:
         self.n_expr = 0
         self.n_known = 0
         self.face_arrays = face_arrays or {}   # base text -> {last index: degree}
+        self.tol_uses = {}                      # (function key, tolerance symbol) -> [(degree, Compare node)]
 
     # ------------------------------------------------------------------ functions
     def analyse(self, f, argdeg=None):
@@ -409,9 +424,16 @@ class Degrees:
                 return a
             return None
         if isinstance(node, ast.Compare):
-            vals = [self.ev(node.left, env, f)] + [self.ev(c, env, f) for c in node.comparators]
+            sides = [node.left] + list(node.comparators)
+            vals = [self.ev(s_, env, f) for s_ in sides]
             for x, y in zip(vals, vals[1:]):
                 self._same(x, y, f, node, "comparison")
+            # tolerance bookkeeping (R-TOLUNIT): which length degree is each tolerance symbol compared with?
+            for (sa_, va_), (sb_, vb_) in zip(zip(sides, vals), list(zip(sides, vals))[1:]):
+                for tol, other, od in ((sa_, sb_, vb_), (sb_, sa_, va_)):
+                    name = _tolerance_name(tol)
+                    if name is not None and _is_deg(od):
+                        self.tol_uses.setdefault((f.key, name), []).append((od, node))
             return None
         if isinstance(node, ast.BoolOp):
             for v in node.values:
